@@ -107,6 +107,11 @@ func c05AppRec(rec func(c fiber.Ctx)) fasthttp.RequestHandler {
 	}
 	app.Get("/probe", probe)
 	app.Get("/probe/:x", probe)
+	// an optional parameter and a catch-all: a request that leaves them EMPTY must see them empty
+	app.Get("/opt/:o?", func(c fiber.Ctx) error { rec(c); return c.SendString("o=[" + c.Params("o") + "]") })
+	app.Get("/sf-a", func(c fiber.Ctx) error { rec(c); return c.SendFile(c05File, fiber.SendFile{MaxAge: 3600}) })
+	app.Get("/sf-b", func(c fiber.Ctx) error { rec(c); return c.SendFile(c05File) })
+	app.Get("/*", func(c fiber.Ctx) error { rec(c); return c.SendString("rest=[" + c.Params("*") + "] a=[" + c.Params("a") + "]") })
 	return app.Handler()
 }
 
@@ -131,6 +136,17 @@ func serveWire(rc *fasthttp.RequestCtx, h fasthttp.RequestHandler, raw string) {
 	}()
 }
 
+// c05File: the file the SendFile routes serve (one path for every app of the process)
+var c05File = func() string {
+	f, err := os.CreateTemp("", "c05-*.txt")
+	if err != nil {
+		panic(err)
+	}
+	defer f.Close()
+	_, _ = f.WriteString("file content")
+	return f.Name()
+}()
+
 func c05Request(kind, m string) string {
 	line, hdr := "GET /plain HTTP/1.1", ""
 	switch kind {
@@ -153,6 +169,10 @@ func c05Request(kind, m string) string {
 		line = "GET /bindauto?name=" + m + "&n=5 HTTP/1.1"
 	case "notallowed":
 		line = "POST /plain HTTP/1.1"
+	case "sendfilemaxage":
+		line = "GET /sf-a HTTP/1.1"
+	case "optparam":
+		line = "GET /opt/" + m + "o HTTP/1.1"
 	}
 	return line + "\r\nHost: " + strings.ToLower(m) + ".test\r\nX-Marker: " + m + "\r\n" + hdr + "\r\n"
 }
@@ -167,6 +187,12 @@ func c05Probe(kind string) string {
 		return "GET /probe HTTP/1.1\r\nHost: p.test\r\nCookie: fiber_flash=" + string(flashCookie("P", 1, true)) + "\r\n\r\n"
 	case "bindbad":
 		return "GET /probe?name=Pn&n=notanumber HTTP/1.1\r\nHost: p.test\r\n\r\n"
+	case "star":
+		return "GET / HTTP/1.1\r\nHost: p.test\r\n\r\n"
+	case "optparam":
+		return "GET /opt HTTP/1.1\r\nHost: p.test\r\n\r\n"
+	case "sendfile":
+		return "GET /sf-b HTTP/1.1\r\nHost: p.test\r\n\r\n"
 	}
 	return "GET /probe HTTP/1.1\r\nHost: p.test\r\n\r\n"
 }
@@ -190,7 +216,7 @@ func TestC05(t *testing.T) {
 	old := debug.SetGCPercent(-1) // a garbage collection empties sync.Pool: the history must stay on one pooled context
 	defer debug.SetGCPercent(old)
 	baseline := map[string]string{}
-	for _, p := range []string{"plain", "params", "flashpartial", "flashshort", "bindbad"} {
+	for _, p := range []string{"plain", "params", "flashpartial", "flashshort", "bindbad", "star", "optparam", "sendfile"} {
 		var ptrs []string
 		h := c05App(&ptrs)
 		rc := &fasthttp.RequestCtx{}
@@ -247,7 +273,7 @@ func TestC05Conc(t *testing.T) {
 	o := newOut(t)
 	defer o.close()
 	baseline := map[string]string{}
-	for _, p := range []string{"plain", "params", "flashpartial", "flashshort", "bindbad"} {
+	for _, p := range []string{"plain", "params", "flashpartial", "flashshort", "bindbad", "star", "optparam", "sendfile"} {
 		var ptrs []string
 		h := c05App(&ptrs)
 		rc := &fasthttp.RequestCtx{}
